@@ -203,7 +203,8 @@ use crate::common::*;
 def harness(name, L, lossy, v, cap, wf, st):
     vec = list(v) + [0] * (2 * MAXL + 1 - len(v))
     budget = MAXFAULTS - len(wf)
-    s = "#[kani::proof]\n#[kani::unwind(%d)]\n" % (L + 3)
+    # loops: setup fills MAXL lines (MAXL+1); the worker takes <= L+1 messages per batch and runs <= L+1 batches (L+3)
+    s = "#[kani::proof]\n#[kani::unwind(%d)]\n" % max(L + 3, MAXL + 1)
     s += "#[kani::stub(std::rt::thread_cleanup, noop)]\n#[kani::stub(core::fmt::write, fmt_write_stub)]\n"
     s += "fn %s() {\n" % name
     s += "    let mut w = setup(%d, %d, %s, [%s], [%s], %d);\n" % (
